@@ -29,7 +29,7 @@ CASE_TIMEOUT = 900
 
 def cases(tier, seed):
     rng = random.Random(f"C03-{seed}")
-    n = 320 if tier == "quick" else 4000
+    n = 320 if tier == "quick" else 10000
     out = []
     for i in range(n):
         r = rng.random()
